@@ -48,6 +48,187 @@ def log(*a: Any) -> None:
 
 
 # ----------------------------------------------------------------------------------------
+# Errors of the harness's own wrappers / fakes / stubs are harness crashes, never observations of the code under test
+
+
+class HarnessFault(BaseException):
+    """An error that originates in the harness's own frames (a wrapper, fake, stub or subclass the harness puts in
+    place of something of the code under test), e.g. because a harmless signature change of the code no longer fits
+    a stub.  Deliberately not an ``Exception``: no ``except Exception`` that turns errors of the code under test into
+    an observation ("raised", "EXC ...") can swallow it; ``run_property`` reports it as a harness crash."""
+
+
+_HARNESS_DIR = str(Path(__file__).resolve().parent) + os.sep
+_BIND_ERR = re.compile(
+    r"^([\w.<>]+)\(\) (?:got an unexpected keyword argument|got multiple values for (?:keyword )?argument|"
+    r"got some positional-only arguments|takes (?:no|exactly|at least|at most|from|\d+) |missing \d+ required )")
+_OWN_BUG = (TypeError, AttributeError, NameError)
+
+
+def _harness_owned(obj: Any) -> bool:
+    mod = sys.modules.get(getattr(obj, "__module__", None) or "")
+    return str(getattr(mod, "__file__", None) or "").startswith(_HARNESS_DIR)
+
+
+def _names_harness_callable(first: str, caller_globals: Dict[str, Any]) -> Optional[str]:
+    there = caller_globals.get(first)
+    if there is not None and not _harness_owned(there):
+        return None         # the caller's own module defines that name: the code's function, not a harness one
+    for mod in list(sys.modules.values()):
+        if not str(getattr(mod, "__file__", None) or "").startswith(_HARNESS_DIR):
+            continue
+        obj = vars(mod).get(first)
+        if callable(obj) and getattr(obj, "__module__", None) == mod.__name__:
+            return str(mod.__file__)
+    return None
+
+
+def harness_fault(ex: BaseException) -> Optional[str]:
+    """Why ``ex`` (or an exception it was raised from / while handling) is the harness's own error, or None.
+
+    (a) a TypeError of argument binding ("f() got an unexpected keyword argument ...", "f() takes 2 positional
+        arguments but ..."): Python raises it in the CALLER's frame and names the callee.  It is the harness's iff the
+        named function / class (first component of its qualified name) is one a harness module defines - wherever
+        the caller is; a binding error that names a function of the code is the code's (also when a harness wrapper
+        merely forwarded the call).
+    (b) any other TypeError / AttributeError / NameError whose innermost frame is a file of /verif/harness AND that
+        was reached through a frame of the code under test: a bug in the body of a wrapper / fake / stub the code
+        called (the fakes raise their scripted errors with other types: RuntimeError, OSError, requests exceptions;
+        a fake that must raise one of these three on purpose marks the exception with ``verif_scripted = True``).
+        An error in harness code that was not called by the code under test is left to the handler as before.
+    """
+    repo_dir = os.path.abspath(str(REPO)) + os.sep
+    seen = 0
+    cur: Optional[BaseException] = ex
+    while cur is not None and seen < 8:
+        seen += 1
+        if isinstance(cur, _OWN_BUG) and not getattr(cur, "verif_scripted", False):
+            files: List[str] = []
+            tb = cur.__traceback__
+            last = None
+            while tb is not None:
+                last = tb
+                files.append(os.path.abspath(tb.tb_frame.f_code.co_filename))
+                tb = tb.tb_next
+            m = _BIND_ERR.match(str(cur)) if isinstance(cur, TypeError) else None
+            if m:
+                where = _names_harness_callable(m.group(1).split(".")[0], last.tb_frame.f_globals if last is not None else {})
+                if where is not None:
+                    return "%s: %s (%s is defined in %s)" % (type(cur).__name__, cur, m.group(1), where)
+            elif files and files[-1].startswith(_HARNESS_DIR) and any(f.startswith(repo_dir) for f in files[:-1]):
+                return "%s: %s (innermost frame %s:%d, called by the code under test)" % (
+                    type(cur).__name__, cur, files[-1], last.tb_lineno)
+        cur = cur.__cause__ or cur.__context__
+    return None
+
+
+_MISSING = object()
+
+
+def arg_of(orig: Any, args: Sequence[Any], kwargs: Dict[str, Any], name: str, pos: Optional[int] = None,
+           default: Any = None) -> Any:
+    """What the call ``orig(*args, **kwargs)`` gives to parameter ``name`` of the wrapped original, however the code
+    under test spells the call (positionally or by keyword, with or without further arguments).  ``pos`` is the
+    position to fall back on (counting as the wrapper's ``args`` do) when ``orig`` has no inspectable signature.
+    Never raises: a call that does not fit ``orig`` gets ``default`` here and its own TypeError from ``orig``."""
+    try:
+        import inspect
+        bound = inspect.signature(orig).bind_partial(*args, **kwargs)
+        got = bound.arguments.get(name, _MISSING)
+        if got is not _MISSING:
+            return got
+    except (TypeError, ValueError):
+        pass
+    if name in kwargs:
+        return kwargs[name]
+    if pos is not None and 0 <= pos < len(args):
+        return args[pos]
+    return default
+
+
+def bound_call(orig: Any, args: Sequence[Any], kwargs: Dict[str, Any]) -> Any:
+    """``inspect.BoundArguments`` of the call ``orig(*args, **kwargs)``: a wrapper reads (and may replace) arguments by
+    the ORIGINAL's parameter names and then calls ``orig(*b.args, **b.kwargs)``.  None when the call does not fit
+    ``orig`` (or ``orig`` cannot be inspected): the wrapper then forwards ``orig(*args, **kwargs)`` untouched and the
+    code under test gets its own error, not one of the wrapper."""
+    try:
+        import inspect
+        return inspect.signature(orig).bind(*args, **kwargs)
+    except (TypeError, ValueError):
+        return None
+
+
+class _Default:
+    """non-data descriptor: a computed default an instance (or subclass) attribute of the same name overrides"""
+
+    def __init__(self, fn: Callable[[Any], Any]) -> None:
+        self.fn = fn
+
+    def __get__(self, obj: Any, owner: Any = None) -> Any:
+        return self if obj is None else self.fn(obj)
+
+
+class FakeResponseBase:
+    """Attributes and methods of ``requests.Response`` a harmless change of the code under test may start to use;
+    the fake responses of the checks inherit them (each keeps its own url/status_code/content/raise_for_status...)."""
+
+    status_code = 200
+    url = ""
+    content = b""
+    reason = "scripted"
+    encoding = "utf-8"
+    history: Tuple[Any, ...] = ()
+
+    ok = _Default(lambda self: int(self.status_code) < 400)
+    headers = _Default(lambda self: {})
+    text = _Default(lambda self: self.content.decode(self.encoding or "utf-8", "replace")
+                    if isinstance(self.content, (bytes, bytearray)) else str(self.content))
+
+    def close(self, *args: Any, **kwargs: Any) -> None:
+        return None
+
+    def __enter__(self) -> Any:
+        return self
+
+    def __exit__(self, *exc: Any) -> None:
+        self.close()
+
+
+class FakeSessionBase:
+    """Likewise for ``requests.Session``: what the code may touch besides ``get`` exists and does nothing."""
+
+    def __init__(self, *args: Any, **kwargs: Any) -> None:
+        pass
+
+    headers = _Default(lambda self: self.__dict__.setdefault("headers", {}))
+    auth = None
+    verify = True
+    proxies: Dict[str, str] = {}
+
+    def mount(self, *args: Any, **kwargs: Any) -> None:
+        return None
+
+    def close(self, *args: Any, **kwargs: Any) -> None:
+        return None
+
+    def __enter__(self) -> Any:
+        return self
+
+    def __exit__(self, *exc: Any) -> None:
+        self.close()
+
+
+def reraise_harness_fault(ex: BaseException) -> None:
+    """First statement of every broad ``except`` that turns an error of a call into the code under test into an
+    observation: an error of the harness's own wrapper frames is re-raised as a harness crash instead."""
+    if isinstance(ex, HarnessFault):
+        raise ex
+    why = harness_fault(ex)
+    if why is not None:
+        raise HarnessFault(why) from ex
+
+
+# ----------------------------------------------------------------------------------------
 # Coq build
 
 
@@ -443,7 +624,7 @@ def run_property(pid: str, tier: str, seed: int) -> int:
                         path.write_text(text)
                     obligations += 1
                     discharged += 1
-            except Exception as ex:  # fail closed
+            except (Exception, HarnessFault) as ex:  # fail closed
                 obligations += 1
                 ctx.obligation_broken("translator:" + pid, "".join(traceback.format_exception_only(type(ex), ex)))
         # 2. Coq cone of the property theorems
@@ -492,13 +673,15 @@ def run_property(pid: str, tier: str, seed: int) -> int:
         if not any(b.startswith("extraction:") for b in ctx.broken):
             try:
                 mod.correspondence(ctx)
+            except HarnessFault:
+                ctx.obligation_broken("harness-fault-in-own-wrapper", traceback.format_exc())
             except Exception as ex:
                 ctx.obligation_broken("correspondence-harness-crashed", traceback.format_exc())
         # 5. known findings
         for e in load_known(pid):
             try:
                 still = mod.replay_known(ctx, e)
-            except Exception:
+            except (Exception, HarnessFault):
                 still = None
                 ctx.notes.append("known finding replay crashed: " + traceback.format_exc()[-800:])
             if e.get("status") == "known":
@@ -517,7 +700,7 @@ def run_property(pid: str, tier: str, seed: int) -> int:
             try:
                 if hasattr(mod, "search"):
                     found = mod.search(ctx)
-            except Exception:
+            except (Exception, HarnessFault):
                 ctx.notes.append("search crashed: " + traceback.format_exc()[-1500:])
             payload = {
                 "property": pid, "seed": seed, "tier": tier,
@@ -527,6 +710,20 @@ def run_property(pid: str, tier: str, seed: int) -> int:
             }
             replay_path = write_replay(pid, payload)
             rc = 1
+        elif os.environ.get("VERIF_SOAK") and hasattr(mod, "search"):
+            # self-test of the violation search (development aid, never part of a registered command): nothing is
+            # broken, so a "failing input" found now is either a defect the model shares and no finding lists, or a
+            # false alarm of the search oracle / its generators - both must be dealt with before a real break meets them
+            try:
+                found = mod.search(ctx)
+            except (Exception, HarnessFault):
+                found = {"search crashed": traceback.format_exc()[-1500:]}
+            if found is not None:
+                sp = write_replay(pid, {"property": pid, "seed": seed, "tier": tier, "broken": ["soak"], "notes": ctx.notes,
+                                        "mismatches": [], "failing_input": found})
+                print(f"SOAK-HIT property={pid} replay={sp}")
+            else:
+                print(f"SOAK-CLEAN property={pid} seed={seed}")
         for ln in ctx.known_lines:
             print(ln)
         if rc:
